@@ -1158,6 +1158,11 @@ class _Tree(_ArithmeticMixin, _Base):
 
         index = self._search(key)
         child = data[index].child
+        # Find out *now* whether the node key will need to be fixed up
+        # below: a comparison can raise, and once the child (or anything
+        # below it) has changed, every level up to the root must get its
+        # chance to repair bucket links and firstbucket pointers.
+        key_is_node_key = index > 0 and compare(key, data[index].key) == 0
 
         removed_first_bucket, value = child._del(key)
 
@@ -1170,7 +1175,7 @@ class _Tree(_ArithmeticMixin, _Base):
             self._p_changed = True
 
         # fix up the node key, but not for the 0'th one.
-        if index > 0 and child.size and compare(key, data[index].key) == 0:
+        if key_is_node_key and child.size:
             self._p_changed = True
             data[index].key = child.minKey()
 
